@@ -33,7 +33,7 @@ pub static DEF_C02: CheckDef = CheckDef {
     assumptions: &[
         "the interpreter's cycle counts are the reference (pinned to the published SM83 table by C06)",
     ],
-    required_classes: &["taken", "not-taken", "multi-instruction", "dispatch-under-cache-pressure", "translation-area-restarted", "restart-probe"],
+    required_classes: &["taken", "not-taken", "multi-instruction", "dispatch-under-cache-pressure", "restart-probe"],
     exhaustive: false,
 };
 
@@ -1328,7 +1328,7 @@ fn run_c02(rec: &mut Rec) {
         pressure_cycles(rec, rec.ctx.tier.pick(700, 8000));
     }
     {
-        let step = rec.ctx.tier.pick(0x20000usize, 0x4000);
+        let step = rec.ctx.tier.pick(0x20000usize, 0x8000);
         let mut k = 0usize;
         let mut target = 0x400000usize;
         while target < 0x7f0000 {
